@@ -109,12 +109,14 @@ def find_link_image(string, offset, delimiters, matches, root=None):
 
 
 def process_emphasis(string, stack_bottom, delimiters, matches):
-    star_bottom = stack_bottom
-    underscore_bottom = stack_bottom
+    # lower bounds of the opener search, per kind of closer
+    # (delimiter character, whether the closer can also open, original run length modulo 3)
+    openers_bottom = {}
     curr_pos = next_closer(stack_bottom, delimiters)
     while curr_pos is not None:
         closer = delimiters[curr_pos]
-        bottom = star_bottom if closer.type[0] == '*' else underscore_bottom
+        kind = (closer.type[0], closer.open, closer.orig_number % 3)
+        bottom = openers_bottom.get(kind, stack_bottom)
         open_pos = matching_opener(curr_pos, delimiters, bottom)
         if open_pos is not None:
             opener = delimiters[open_pos]
@@ -128,21 +130,24 @@ def process_emphasis(string, stack_bottom, delimiters, matches):
             # remove all delimiters in between
             del delimiters[open_pos + 1:curr_pos]
             curr_pos -= curr_pos - open_pos - 1
+            # lower bounds that pointed into the removed range now point at the opener
+            for key, value in openers_bottom.items():
+                if value is not None and value > open_pos:
+                    openers_bottom[key] = open_pos
             # remove appropriate number of chars from delimiters
             if not opener.remove(n, left=False):
                 delimiters.remove(opener)
                 curr_pos -= 1
+                for key, value in openers_bottom.items():
+                    if value is not None and value >= open_pos:
+                        openers_bottom[key] = value - 1 if value > 0 else None
             if not closer.remove(n, left=True):
                 delimiters.remove(closer)
                 curr_pos -= 1
             if curr_pos < 0:
                 curr_pos = 0
         else:
-            bottom = curr_pos - 1 if curr_pos > 1 else None
-            if closer.type[0] == '*':
-                star_bottom = bottom
-            else:
-                underscore_bottom = bottom
+            openers_bottom[kind] = curr_pos - 1 if curr_pos > 1 else None
             if not closer.open:
                 delimiters.remove(closer)
             else:
@@ -424,6 +429,7 @@ class Delimiter:
     def __init__(self, start, end, string):
         self.type = string[start:end]
         self.number = end - start
+        self.orig_number = self.number
         self.active = True
         self.start = start
         self.end = end
@@ -452,8 +458,8 @@ class Delimiter:
             # restrictions apply: the sum of the lengths of the delimiter runs
             # containing the opening and closing delimiters must not be a multiple of 3
             # unless both lengths are multiples of 3.
-            return ((self.number + other.number) % 3 != 0
-                    or (self.number % 3 == 0 and other.number % 3 == 0))
+            return ((self.orig_number + other.orig_number) % 3 != 0
+                    or (self.orig_number % 3 == 0 and other.orig_number % 3 == 0))
         return True
 
     def __repr__(self):
